@@ -590,6 +590,8 @@ func (e *Engine) RunOne(fn *ssa.Function, prefix []Decision, wit *Witness) [][]D
 	}
 	if wit != nil {
 		e.h.Dumps = e.path.dumps
+	} else if len(e.h.Dumps) < 5000 {
+		e.h.Dumps = append(e.h.Dumps, e.path.dumps...)
 	}
 	if e.verbose {
 		fmt.Fprintf(os.Stderr, "  path: %s %s (pc=%d, log=%d, alts=%d)\n", st, det, len(e.path.pc), len(e.path.log), len(e.work))
@@ -680,6 +682,7 @@ func (r *HarnessResult) merge(o *HarnessResult) {
 	if len(r.Samples) < 3 {
 		r.Samples = append(r.Samples, o.Samples...)
 	}
+	r.Dumps = append(r.Dumps, o.Dumps...)
 	s, t := &r.Stats, o.Stats
 	s.Queries += t.Queries
 	s.Sat += t.Sat
